@@ -30,5 +30,8 @@ with open(S + '/RESULTS.md', 'w') as f:
     for r in rows:
         f.write('| ' + ' | '.join(r) + ' |\n')
     caught = sum(1 for r in rows if r[3].startswith('CAUGHT'))
-    f.write(f"\n{caught} of {len(rows)} are caught by the quick check of the property they were written against; the others are caught by the check named in the 'other checks' column (see DESIGN.md §12).\n")
+    nowhere = [r[0] for r in rows if not r[3].startswith('CAUGHT') and 'CAUGHT' not in r[4]]
+    f.write(f"\n{caught} of {len(rows)} are caught by the quick check of the property they were written against; "
+            f"{len(rows) - caught - len(nowhere)} more are caught by the check named in the 'other checks' column; "
+            f"not detected by any check: {', '.join(nowhere) if nowhere else 'none'} (see DESIGN.md §12).\n")
 print(len(rows), 'seeded changes')
